@@ -40,6 +40,8 @@ type Query {
   tagged(filter: Filter): String
   label: Tag
   labelRef: TagRef
+  vari(xs: [String]): String
+  triple: String
 }
 type Tag {
   title: String
@@ -158,6 +160,7 @@ const (
 	FaultWrapGroup  = "wrapped_error_group"          // fmt.Errorf("ctx: %w", group)-style wrapper around a ggql.Errors of two members
 	FaultWrapGGQL   = "wrapped_ggql_error"           // wrapper around a *ggql.Error with extensions
 	FaultOwnPath    = "ggql_error_with_own_path"     // a *ggql.Error handed on from elsewhere: wraps ErrResolve, has a Path, Line and Column of its own
+	FaultTypedNil   = "typed_nil_with_error"        // the resolver returns its declared nil map / nil pointer together with the error
 	FaultPanic      = "panic"                        // the resolver panics (the caller of ggql recovers): histories only
 	FaultBadList    = "bad_list_elements"            // a [scalar] field returns []interface{}{ok, bad, ok, bad}: two coercion failures in one list
 )
@@ -258,6 +261,9 @@ func (tr *Tracker) enter(typ, field string, args map[string]interface{}, path st
 	if kind == FaultNthError && typ != "list" {
 		kind = FaultError
 	}
+	if kind == FaultTypedNil && (leaf || typ == "list" || IsScalarListField(field)) {
+		kind = FaultError
+	}
 	if typ == "list" {
 		kind = FaultNthError
 	}
@@ -299,6 +305,8 @@ func (tr *Tracker) enter(typ, field string, args map[string]interface{}, path st
 			&ggql.Error{Base: errors.New("injected twin " + tag), Extensions: map[string]interface{}{"code": "E" + strconv.Itoa(tr.N) + "t2"}},
 			errors.New("injected member 3 " + tag),
 		}
+	case FaultTypedNil:
+		return kind, errors.New("injected failure with a typed nil value " + tag)
 	case FaultOwnPath:
 		return kind, &ggql.Error{Base: &wrapErr{msg: "upstream " + tag, err: ggql.ErrResolve}, Line: 77, Column: 7,
 			Path: []interface{}{"upstream", "items", 1, "price"}, Extensions: map[string]interface{}{"code": "E" + strconv.Itoa(tr.N)}}
@@ -568,6 +576,13 @@ func (q *Query) Tagged(filter *FilterIn) (string, error) {
 	return strings.Join(filter.Names, ","), nil
 }
 
+// Vari is behind Query.vari: a variadic method, which the reflection strategy
+// refuses (every time it is asked).
+func (q *Query) Vari(xs ...string) string { return strings.Join(xs, "/") }
+
+// Triple is behind Query.triple: three return values, refused as well.
+func (q *Query) Triple() (string, int, error) { return "t", 3, nil }
+
 // Pick is the reflection method behind Query.pick.
 func (q *Query) Pick(i int64) (interface{}, error) {
 	if _, err := q.tr.enter("Query", "pick", map[string]interface{}{"i": i}, ""); err != nil {
@@ -834,6 +849,10 @@ func zooField(q *Query, obj interface{}, name string, args map[string]interface{
 			return span(args["r"]), nil
 		case "blob":
 			return CanonLite(args["j"]), nil
+		case "vari":
+			return nil, errors.New("zoo: vari cannot be served")
+		case "triple":
+			return nil, errors.New("zoo: triple cannot be served")
 		case "tagged":
 			switch f := args["filter"].(type) {
 			case *FilterIn:
@@ -1116,6 +1135,13 @@ func (n *INode) Resolve(field *ggql.Field, args map[string]interface{}) (interfa
 	}
 	kind, err := tr.enter(typeNameOf(n.v), field.Name, args, ps)
 	if err != nil {
+		if kind == FaultTypedNil {
+			// "var rec map[string]interface{}; return rec, err"
+			if len(ps)%2 == 0 {
+				return map[string]interface{}(nil), err
+			}
+			return (*Keeper)(nil), err
+		}
 		return nil, err
 	}
 	v, err := zooField(n.q, n.v, field.Name, args)
@@ -1195,6 +1221,12 @@ func (a *ZooAny) Resolve(obj interface{}, field *ggql.Field, args map[string]int
 	}
 	kind, err := tr.enter(typeNameOf(obj), field.Name, args, ps)
 	if err != nil {
+		if kind == FaultTypedNil {
+			if tr.N%2 == 0 {
+				return map[string]interface{}(nil), err
+			}
+			return (*Keeper)(nil), err
+		}
 		return nil, err
 	}
 	v, err := zooField(a.Q, obj, field.Name, args)
